@@ -19,6 +19,7 @@ CONF = {
         'scenario directories live under a scratch root and nothing else touches them during a scenario',
         'the default Spec directories /etc/cdi and /var/run/cdi do not exist on the host (else the cases that involve them are skipped)',
         'an inotify instance can be obtained (the command and the harness both retry on shortage)',
+        'populated default directories are exercised inside a private mount namespace (unshare -m, tmpfs over /run and /etc in that namespace only); where that is not permitted the stream is skipped and the evidence says so (populated_default_dirs)',
     ],
     'search': [(1001, 'thorough')],
     'harness_timeout': 1500,
